@@ -239,6 +239,9 @@ macro_rules! observe {
         json!({
             "op": "obs",
             "nc": g.node_count(), "ec": g.edge_count(), "nb": nb, "eb": eb,
+            // the same numbers through the visit traits (their own impls)
+            "tr": [petgraph::visit::NodeCount::node_count(g), petgraph::visit::EdgeCount::edge_count(g),
+                   petgraph::visit::NodeIndexable::node_bound(g), petgraph::visit::EdgeIndexable::edge_bound(g)],
             "directed": g.is_directed(),
             "nodes": g.node_references().map(|(i, w)| json!([i.index(), *w])).collect::<Vec<_>>(),
             "edges": g.edge_references().map(|e| eref(&e)).collect::<Vec<_>>(),
